@@ -26,6 +26,8 @@ import (
 )
 
 type verifC48Conn struct {
+	// chunk > 0: every Read hands out at most chunk bytes (segmented delivery of the client stream)
+	chunk  int
 	in     *bytes.Reader
 	out    bytes.Buffer
 	closed bool
@@ -36,6 +38,9 @@ type verifC48Conn struct {
 func (c *verifC48Conn) Read(p []byte) (int, error) {
 	if c.closed {
 		return 0, io.ErrClosedPipe
+	}
+	if c.chunk > 0 && len(p) > c.chunk {
+		p = p[:c.chunk]
 	}
 	return c.in.Read(p)
 }
@@ -107,6 +112,16 @@ func (e *VerifC48Env) AddFilter(point int, f interface{}) error {
 // input bytes were left unread.
 func (e *VerifC48Env) Serve(input []byte) (out []byte, closed bool, unread int) {
 	fc := &verifC48Conn{in: bytes.NewReader(input)}
+	c, _ := newConn(fc, e.srv)
+	rd := c.buf.Reader
+	base := rd.TotalRead
+	c.serve()
+	return append([]byte(nil), fc.out.Bytes()...), fc.closed, len(input) - (rd.TotalRead - base)
+}
+
+// ServeChunked is Serve with the client byte stream delivered in reads of at most chunk bytes (chunk <= 0: unlimited).
+func (e *VerifC48Env) ServeChunked(input []byte, chunk int) (out []byte, closed bool, unread int) {
+	fc := &verifC48Conn{in: bytes.NewReader(input), chunk: chunk}
 	c, _ := newConn(fc, e.srv)
 	rd := c.buf.Reader
 	base := rd.TotalRead
